@@ -39,7 +39,8 @@ class G:
     def key(self, supported_only=True):
         r = self.rng
         pool = [lambda: r.choice(STRS), lambda: r.choice(INTS[:6]), lambda: r.choice([1.5, 0.25, -2.0, 1e22]),
-                lambda: np.int64(r.choice([0, 3, -4])), lambda: np.float32(r.choice([0.5, 2.0])), lambda: np.int8(r.choice([1, 2]))]
+                lambda: np.int64(r.choice([0, 3, -4])), lambda: np.float32(r.choice([0.5, 2.0])), lambda: np.int8(r.choice([1, 2])),
+                lambda: np.float64(r.choice([2.5, -0.125, 7.0])), lambda: np.uint16(r.choice([5, 6]))]
         if not supported_only:
             pool += [lambda: True, lambda: False, lambda: None, lambda: (1, 2), lambda: np.bool_(True)]
         return r.choice(pool)()
@@ -105,6 +106,11 @@ class G:
         if r.random() < 0.4:
             rs = np.random.RandomState(r.randint(0, 99))
             rs.random_sample(r.randint(0, 5))
+            # legacy gaussian draws leave a cached second value behind (has_gauss/gauss are part of the stream state)
+            for _ in range(r.choice([0, 1, 1, 2, 3])):
+                rs.standard_normal()
+            if r.random() < 0.3:
+                rs.randint(0, 10, size=r.randint(0, 3))
             return rs, True
         g = np.random.Generator(getattr(np.random, r.choice(BITGENS))(r.randint(0, 99)))
         g.random(r.randint(0, 5))
@@ -125,8 +131,15 @@ class G:
         if a.dtype.kind not in "iuf" or a.ndim == 0:
             a = np.arange(4.0)
         mask = np.zeros(a.shape, dtype=bool)
+        v = self.rng.random()
+        if v < 0.25:
+            return np.ma.MaskedArray(a), True                      # nomask
+        if v < 0.5:
+            return np.ma.MaskedArray(a, mask), True                # an explicit mask array without a True entry
         if mask.size:
             mask.flat[0] = True
+            if v > 0.8:
+                mask.flat[-1] = True
         return np.ma.MaskedArray(a, mask), True
 
     def callable_(self):
